@@ -1,5 +1,6 @@
 """C04 — string->integer exact with exact overflow detection: constants and guards (DESIGN §4)."""
 from rules import grd as G
+from rules import digits as DG
 from rules import syntax as S
 from rules.core import (guarded, callee_name, last_seg, path_conditions, op_expr, rvalue_expr, show, strip_casts, expr_calls,
                         expr_consts, fold, pol_is_variant, AnchorMissing)
@@ -209,3 +210,4 @@ def run(col, configs, tier):
             n = G.rule_iter_steps(col, facts, ("lexical_parse_integer",))
             col.floor("GRD-step", "integer parser step sites", n, 4)
         guarded(col, steps, facts)
+        guarded(col, DG.rule_digit_decoders, facts)
